@@ -319,3 +319,90 @@ func foldAlikeWorkload(c *Ctx, f func(entry, input string)) {
 		}
 	}
 }
+
+// sameNameWorkload: every sentence of the systematic set with two of its identifiers made equal (each identifier
+// given the name of the previous one and of the one before that), and with all identifiers made equal. A printer
+// that abbreviates `x AS x`, `t.t`, `a = a` ... or a parser that compares names where it should compare positions
+// shows only when two names that the generator draws independently happen to coincide. Names are not semantic for a
+// parser, so every variant is a sentence of the grammar whenever the original is. Canonical spelling, re-lex guard.
+func sameNameWorkload(c *Ctx, f func(entry, input string)) {
+	set, _, _ := gen.SystematicSet()
+	r := gen.NewRand(1, 4400)
+	for si, s := range set {
+		if !c.Mine(si) {
+			continue
+		}
+		var ids []int
+		for i, t := range s.Toks {
+			if t.Role == gen.ID {
+				ids = append(ids, i)
+			}
+		}
+		if len(ids) < 2 {
+			continue
+		}
+		emit := func(mod func(toks []gen.Tok)) {
+			v := gen.Sentence{Entry: s.Entry, Toks: append([]gen.Tok{}, s.Toks...)}
+			mod(v.Toks)
+			txt := gen.Render(r, v, renderPolicies[0])
+			if len(txt) <= 16<<10 && gen.RelexGuard(txt, v) {
+				f(v.Entry, txt)
+				c.Count("same_name_variants", 1)
+			}
+		}
+		for k := 1; k < len(ids); k++ {
+			for _, d := range []int{1, 2} {
+				if k-d < 0 {
+					continue
+				}
+				a, b := ids[k-d], ids[k]
+				if s.Toks[a].Text == s.Toks[b].Text && s.Toks[a].Quote == s.Toks[b].Quote {
+					continue
+				}
+				emit(func(toks []gen.Tok) { toks[b].Text, toks[b].Quote = toks[a].Text, toks[a].Quote })
+			}
+		}
+		// alias collapse: `operand AS x` rewritten to `x AS x` (the operand is the balanced token run in front of AS back
+		// to the previous comma, open bracket or keyword); variants that are no longer sentences are rejected by the
+		// parser and skipped by the round-trip oracles, which judge accepted inputs only
+		for k := 1; k+1 < len(s.Toks); k++ {
+			if s.Toks[k].Role != gen.KW || s.Toks[k].Text != "AS" || s.Toks[k+1].Role != gen.ID {
+				continue
+			}
+			depth, start := 0, k
+		scan:
+			for j := k - 1; j >= 0; j-- {
+				tk := s.Toks[j]
+				switch {
+				case tk.Role == gen.PUNCT && (tk.Text == ")" || tk.Text == "]" || tk.Text == "}"):
+					depth++
+				case tk.Role == gen.PUNCT && (tk.Text == "(" || tk.Text == "[" || tk.Text == "{"):
+					if depth == 0 {
+						break scan
+					}
+					depth--
+				case depth == 0 && ((tk.Role == gen.PUNCT && tk.Text == ",") || tk.Role == gen.KW):
+					break scan
+				}
+				start = j
+			}
+			if start >= k || (k-start == 1 && s.Toks[start].Role == gen.ID && s.Toks[start].Text == s.Toks[k+1].Text) {
+				continue
+			}
+			v := gen.Sentence{Entry: s.Entry}
+			v.Toks = append(v.Toks, s.Toks[:start]...)
+			v.Toks = append(v.Toks, s.Toks[k+1])
+			v.Toks = append(v.Toks, s.Toks[k:]...)
+			txt := gen.Render(r, v, renderPolicies[0])
+			if len(txt) <= 16<<10 && gen.RelexGuard(txt, v) {
+				f(v.Entry, txt)
+				c.Count("alias_collapse_variants", 1)
+			}
+		}
+		emit(func(toks []gen.Tok) {
+			for _, i := range ids[1:] {
+				toks[i].Text, toks[i].Quote = toks[ids[0]].Text, toks[ids[0]].Quote
+			}
+		})
+	}
+}
